@@ -309,7 +309,12 @@ func solveOne(i int, o *Obligation, cfg RunConfig) {
 // retryBudget: second attempt of an undischarged obligation. Generous on
 // purpose: an alarm must come from the code, never from a loaded machine.
 func retryBudget(first time.Duration) time.Duration {
-	b := first * 18
+	if v := os.Getenv("VC_RETRY"); v != "" {
+		var n int
+		fmt.Sscan(v, &n)
+		return time.Duration(n) * time.Second
+	}
+	b := first * 9
 	if b > 6*time.Minute {
 		b = 6 * time.Minute
 	}
